@@ -4,6 +4,7 @@
 #include "store.c"
 
 static char spec_lc(char c) { return (c >= 'A' && c <= 'Z') ? (char)(c - 'A' + 'a') : c; }
+int g_initdef_flags_seen;
 static int k_cfgflags;    /* literal flag word of the context */
 static cfg_opt_t g_subopts[1];   /* the declared sub-options (terminator only): identity matters, not content */
 char in_title[2]; _Bool in_notitle;
